@@ -173,12 +173,18 @@ Definition cls_hnsw_name (r : rule) : bool :=
   match r with
   | Rule _ b => existsb (fun p => match p with BPos (Atom n _) => str_eqb n (lit "hnsw_nearest"%string) | _ => false end) b
   end.
+(* 7: an arithmetic term that is a bare leaf: "+inf" (also "+nan", "+1e400") is not a finite float, is
+      then taken for arithmetic because of the '+', and parse_primary accepts the non-finite float;
+      it prints as inf / NaN, which is an unquoted atom / a variable *)
+Definition cls_arith_leaf (t : term) : bool :=
+  match t with TArith (ABin _ _ _) => false | TArith _ => true | _ => false end.
 Definition known_class (E : env) (r : rule) : N :=
   if rule_any (cls_sci E) r then 1
   else if rule_any cls_nan r then 2
   else if cls_arrow E r then 3
   else if rule_any cls_dup r then 4
   else if cls_hnsw_name r then 5
+  else if rule_any cls_arith_leaf r then 7
   else 0.
 (* 6 (persistent path only): SerializableTerm has no variant for function calls, vector literals and
       booleans (they are stored as `_`), nor SerializableBodyPred for hnsw_nearest; non-finite floats
